@@ -367,6 +367,7 @@ impl<'a> Builder<'a> {
             Src::Channel(bursts) => {
                 let (tx, src) = ChannelSource::<E>::new(4);
                 let bursts = bursts.clone();
+                let grace_us = self.sc.client_grace_us;
                 if self.host == 0 {
                     self.clients.push(Box::new(move || {
                         for (pause_us, burst) in bursts {
@@ -383,6 +384,9 @@ impl<'a> Builder<'a> {
                                     return;
                                 }
                             }
+                        }
+                        if grace_us > 0 {
+                            simrt::rt::sleep_local(grace_us * 1000);
                         }
                         drop(tx);
                     }));
